@@ -447,6 +447,9 @@ func runCase(r *hk.Run, tree *stores.Node, scheds []string, pool []blobT, hist, 
 	if !c.dead {
 		c.do("enum - 1000")
 	}
+	if c.ex.Unsettled > 0 {
+		r.Hit("settle-timeout") // goroutines of an op were still running after 2 s
+	}
 	return calls, c
 }
 
